@@ -71,6 +71,7 @@ struct Shared {
     seq: AtomicU64,
     conn_seq: AtomicU64,
     client_ips: AtomicU64,
+    overrides: Mutex<Vec<NodeOverride>>,
     nodes: Mutex<Vec<Arc<NodeState>>>,
 }
 
@@ -127,6 +128,7 @@ impl MockCluster {
                         seq: AtomicU64::new(0),
                         conn_seq: AtomicU64::new(0),
                         client_ips: AtomicU64::new(0),
+                        overrides: Mutex::new(Vec::new()),
                         nodes: Mutex::new(Vec::new()),
                     });
                     for (node, ls) in listeners.into_iter().enumerate() {
@@ -324,6 +326,29 @@ impl MockCluster {
             }
         }
         Err(last.unwrap())
+    }
+    /// Removes a node from the cluster: it stops listening, its connections are cut, and it disappears
+    /// from the other nodes' `system.peers` (`NodeSpec.hidden`). Its index stays valid (indexes of the
+    /// other nodes do not change). Combine with `push_event(.., body_event_topology_change(false, ip, port))`
+    /// or wait for / trigger the driver's metadata refresh.
+    pub fn remove_node(&self, node: usize, how: CutKind) {
+        self.stop_node(node, how);
+        self.node_override(node, |o| o.hidden = true);
+    }
+    /// `dc = false` / `rack = false`: the node's `data_center` / `rack` cells in system.local and system.peers
+    /// are null (the driver's `Node::datacenter` / `rack` become `None`); `true` = the value of the `NodeSpec`.
+    pub fn set_node_location(&self, node: usize, dc: bool, rack: bool) {
+        self.node_override(node, |o| {
+            o.null_dc = !dc;
+            o.null_rack = !rack;
+        });
+    }
+    fn node_override(&self, node: usize, f: impl FnOnce(&mut NodeOverride)) {
+        let mut ov = self.sh.overrides.lock().unwrap();
+        if ov.len() <= node {
+            ov.resize(node + 1, NodeOverride::default());
+        }
+        f(&mut ov[node]);
     }
     pub fn is_down(&self, node: usize) -> bool {
         self.sh.node(node).down.load(Ordering::SeqCst)
@@ -1070,7 +1095,7 @@ impl Conn {
         if let Some(sel) = parse_select(t) {
             let sp = self.sh.spec.lock().unwrap();
             let nulls: Vec<Value> = vec![];
-            if let Some(SysAnswer::Rows { columns, .. }) = answer_system_select(&sp, self.sh.cluster_id, self.node, &sel, &nulls, &[]) {
+            if let Some(SysAnswer::Rows { columns, .. }) = answer_system_select(&sp, self.sh.cluster_id, self.node, &sel, &nulls, &self.sh.overrides.lock().unwrap()) {
                 return PreparedSpec { bind_columns: system_bind_columns(&sel), result_columns: columns, ..Default::default() };
             }
         }
@@ -1113,7 +1138,7 @@ impl Conn {
                 let text = ctx.text.clone().unwrap_or_default();
                 if let Some(s) = sel {
                     let sp = self.sh.spec.lock().unwrap();
-                    if let Some(SysAnswer::NoSuchTable) = answer_system_select(&sp, self.sh.cluster_id, self.node, s, &[], &[]) {
+                    if let Some(SysAnswer::NoSuchTable) = answer_system_select(&sp, self.sh.cluster_id, self.node, s, &[], &self.sh.overrides.lock().unwrap()) {
                         return frame(op::ERROR, body_error(&ErrorSpec::new(DbErr::Invalid, &format!("unconfigured table {}", s.table))));
                     }
                 }
@@ -1147,7 +1172,7 @@ impl Conn {
                     let params = ctx.params.clone().unwrap_or_default();
                     let ans = {
                         let sp = self.sh.spec.lock().unwrap();
-                        answer_system_select(&sp, self.sh.cluster_id, self.node, s, &params.values, &[])
+                        answer_system_select(&sp, self.sh.cluster_id, self.node, s, &params.values, &self.sh.overrides.lock().unwrap())
                     };
                     match ans {
                         Some(SysAnswer::NoSuchTable) => {
